@@ -22,7 +22,7 @@ ASSUMPTIONS = ["value-at-cell equality is asserted only when the new value is re
                "(an int, or any number when the table holds a float)",
                "|values| <= 1e15 so that sums are exact in float64"]
 BUDGET = {"quick": {"workers": 4, "examples": 1500, "seconds": 40},
-          "thorough": {"workers": 16, "examples": 6000, "seconds": 420}}
+          "thorough": {"workers": 16, "examples": 18000, "seconds": 450}}
 
 big_ints = st.one_of(st.integers(2**31 - 2, 2**31 + 2), st.integers(-2**31 - 2, -2**31 + 2),
                      st.integers(-10**15, 10**15), st.integers(2**32, 2**40))
